@@ -183,12 +183,13 @@ PROPS["C36"] = dict(
     corr_module="Corr.C36",
     streams={
         "mask": dict(runner="C36_run", in_t="C36_in", out_t="C36_out", shard=250, imports=["Model.Pii"]),
-        "spans": dict(runner="C36_spans_run", in_t="C36_spans_in", out_t="C36_spans_out", shard=600),
+        "corpus": dict(runner="C36_run", in_t="C36_in", out_t="C36_out", shard=180, imports=["Model.Pii"]),
+        "spans": dict(runner="C36_spans_run", in_t="C36_spans_in", out_t="C36_spans_out", shard=500),
     },
-    n_quick=1500, n_thorough=40000,
+    n_quick=1000, n_thorough=40000,
     level_text="Unbounded theorems over a regex-AST model of src/pii.rs (backtracking matcher in the regex crate's leftmost-first order, find_iter/replace_all, mask_pii = the seven replace_all passes, contains_pii = any is_match; the seven patterns, the pass order, the tokens and the is_match order are regenerated from the source on every run; every theorem holds for all texts and all Unicode tables): the matcher is sound and complete for a declarative language semantics (is_match r s iff some substring of s is in L(r), \\b read against the neighbouring code points) for every regex of the AST; replace_all without a match is the identity for every regex; text in which contains_pii detects nothing is returned unchanged (third sentence, full strength). 'Nothing detectable remains' and idempotence are REFUTED (\"1234567890123456789\" -> \"123456789[PHONE]\", still detected, second pass differs) and proved for every text outside known_class, which is shown exact; the underlying theorem: for any list of passes, a match that survives has in its window (code point before, match, code point after) a code point inserted by its own or a later pass. No replacement token is detected by itself.",
     level_note="First two sentences of the property are REFUTED by the unchanged implementation; recorded as known finding F-C36-1 (class token-boundary-rematch), proved outside it. 'No substring that contains_pii detects' is read as contains_pii(mask_pii(x)) = false (contains_pii examines every substring in its context: theorem 1). Trusted: Coq kernel + vm_compute; hand-written model of the regex crate's matching order and find_iter/replace_all (tied by correspondence: per-pattern is_match and match spans against the regex crate on the translator-extracted pattern strings, and contains_pii / mask_pii / contains_pii(mask_pii) / idempotence / class against the public API); tools/translate_pii.py (regex syntax -> AST, incl. (?i) simple case folding of ASCII letters with U+212A and U+017F); Unicode tables for \\d \\s \\w are parameters (in the correspondence run: ASCII below 128, and for the non-ASCII code points of a case the regex crate's own answers); the refutation witness and the token facts are computed with the ASCII tables.",
-    rule="texts of 0-170 code points assembled from 0-7 fragments joined by ' ' '' ',' '-' '.' newline ':' '/' '(' ')' '+' '_' '@' '=': digit material (SSN / phone / 7-digit phone / 16-digit and Amex cards with - . space or no separators, plain runs of 3-20 digits, runs of 17-25 and glued 7+10 / 9+10 digit runs, random groupings of 1-10 digit groups with - . space ( ) + tab separators and +1 / ( prefixes), emails with empty / punctuation-only local parts, odd domains, TLDs of 1-5 characters incl. '|' and digits, '@@', missing dot, trailing word characters), dotted quads of 3-6 octets from {0,1,9,...,255,256,260,299,300,999,01,001,0001,00,1234} with '.', '..', ',' separators, key material (sk_live_/pk_test_ + 20-30, ghp_/gho_/ghx_ + 34-38, AKIA + 14-18, api_key/api-key/apikey/api key with = : spaces quotes + 17-26, random case flips, KELVIN SIGN for k, LONG S for s, a leading word character), dotted tokens of 37-46 + 4-9 + 4-9 characters, filler words, non-ASCII fillers (e-acute, em dash, CJK, Arabic-Indic and full-width digits, NBSP, EM SPACE, ZWJ, beta) and the seven replacement tokens themselves; eight fixed texts first (the two known-finding witnesses, the doc-test example, the empty text, unit-test negatives, token-only texts). Stream mask: contains_pii(x), mask_pii(x), contains_pii(mask_pii(x)), mask_pii(mask_pii(x)) == mask_pii(x), known class. Stream spans: for every pattern that matches the text plus a random one on every third text: is_match and the find_iter spans of the regex crate on the extracted pattern string. Non-trivial = something is detected or the text is changed (mask) / at least one span (spans); distinct by BLAKE3 of the text (and pattern index).",
+    rule="FIRST, on every run, a corpus sampled from the seven pattern ASTs themselves (the translator's parse, coq/Gen/pii_patterns.json 'ast'; about 540 texts, stream corpus): for every pattern and every branch of every alternation, strings of L(pattern) built by walking the AST with each character class resolved to its ASCII-letter sub-range / its digit sub-range (falling back to whatever keeps the text free of digits and '@') and repetition counts at the minimum and minimum+1, bare and inside a letters-and-spaces carrier -- so every branch that can match without any digit and without '@' (all six API_KEY branches, TOKEN) does so at least once in a digit-free '@'-free text, and every branch has an all-digit-choice match in a digit-free carrier (the harness checks this and emits a COVERAGE-GAP case otherwise); every other member of the classes alone (each punctuation alternative, '_', tab/newline, U+017F, U+212A) and mixed choices with minimum / minimum+1 / random counts; every carrier kind (bare, letters and spaces only, punctuation without digits, text start, text end, unrelated digits, word character before / after, underscores around, punctuation around); all 49 ordered pairs of patterns glued or separated. THEN texts of 0-170 code points assembled from 0-7 fragments joined by ' ' '' ',' '-' '.' newline ':' '/' '(' ')' '+' '_' '@' '=': digit material (SSN / phone / 7-digit phone / 16-digit and Amex cards with - . space or no separators, plain runs of 3-20 digits, runs of 17-25 and glued 7+10 / 9+10 digit runs, random groupings of 1-10 digit groups with - . space ( ) + tab separators and +1 / ( prefixes), emails with empty / punctuation-only local parts, odd domains, TLDs of 1-5 characters incl. '|' and digits, '@@', missing dot, trailing word characters), dotted quads of 3-6 octets from {0,1,9,...,255,256,260,299,300,999,01,001,0001,00,1234} with '.', '..', ',' separators, key material (sk_live_/pk_test_ + 20-30, ghp_/gho_/ghx_ + 34-38, AKIA + 14-18, api_key/api-key/apikey/api key with = : spaces quotes + 17-26, random case flips, KELVIN SIGN for k, LONG S for s, a leading word character), dotted tokens of 37-46 + 4-9 + 4-9 characters, filler words, non-ASCII fillers (e-acute, em dash, CJK, Arabic-Indic and full-width digits, NBSP, EM SPACE, ZWJ, beta) and the seven replacement tokens themselves; eight fixed texts first (the two known-finding witnesses, the doc-test example, the empty text, unit-test negatives, token-only texts). Stream mask: contains_pii(x), mask_pii(x), contains_pii(mask_pii(x)), mask_pii(mask_pii(x)) == mask_pii(x), known class. Stream spans: for every pattern that matches the text plus a random one on every third text: is_match and the find_iter spans of the regex crate on the extracted pattern string. Non-trivial = something is detected or the text is changed (mask) / at least one span (spans); distinct by BLAKE3 of the text (and pattern index).",
     trusted_base=["Unicode tables for \\d \\s \\w/\\b are Section variables in the theorems; in the correspondence run they are ASCII below 128 and, for the non-ASCII code points of the case, what the regex crate itself answers",
                   "the pattern strings used by the harness's own regex objects are the ones tools/translate_pii.py extracted from src/pii.rs in this run (coq/Gen/pii_patterns.json), not a re-declaration; mask_pii / contains_pii are called only through the public API",
                   "the model's treatment of empty matches in replace_all follows the crate's find_iter rule but is not exercised: none of the seven patterns can match the empty string"],
